@@ -1475,6 +1475,187 @@ impl<R: Read> Read for Base64Decoder<R> {
     }
 }
 
+/// Verification hooks (additive, read-only): access to the private incremental
+/// tokeniser over caller supplied patterns, a numeric view of the production
+/// automata and snapshots of decoder state. Used only by external checkers.
+#[cfg(feature = "verif-hooks")]
+pub mod verif {
+    use super::*;
+
+    /// Snapshot of the incremental tokeniser state
+    #[derive(Debug, Clone, PartialEq, Eq, Hash, PartialOrd, Ord)]
+    pub struct Snapshot {
+        /// Current DFA state (dense index)
+        pub automata_state: usize,
+        /// Bytes consumed since the last reset of the automata
+        pub buffer: Vec<u8>,
+        /// Bytes that will be parsed again, in the order they will be parsed
+        pub rescheduled: Vec<u8>,
+        /// Length of the buffer prefix covered by the current candidate
+        pub candidate_len: Option<usize>,
+        /// Whether candidate is a recognised item (not a raw reject)
+        pub candidate_ok: Option<bool>,
+    }
+
+    fn snapshot<T>(matcher: &MatcherDecoder<T>) -> Snapshot {
+        Snapshot {
+            automata_state: matcher.automata_state.verif_index(),
+            buffer: matcher.buffer.to_vec(),
+            rescheduled: matcher.rescheduled.iter().rev().copied().collect(),
+            candidate_len: matcher.item_candidate.as_ref().map(|(_, size)| *size),
+            candidate_ok: matcher.item_candidate.as_ref().map(|(item, _)| item.is_ok()),
+        }
+    }
+
+    impl TTYEventDecoder {
+        pub fn verif_snapshot(&self) -> Snapshot {
+            snapshot(&self.matcher)
+        }
+    }
+
+    impl TTYCommandDecoder {
+        pub fn verif_snapshot(&self) -> Snapshot {
+            snapshot(&self.matcher)
+        }
+    }
+
+    /// Read-only numeric view of a compiled production automata
+    pub struct DfaView {
+        size: usize,
+        start: usize,
+        transition: Box<dyn Fn(usize, u8) -> Option<usize> + Send + Sync>,
+        info: Box<dyn Fn(usize) -> (bool, bool, Vec<String>) + Send + Sync>,
+    }
+
+    impl DfaView {
+        fn new<T: Clone + fmt::Debug + Send + Sync + 'static>(automata: MatcherAutomata<T>) -> Self {
+            let a0 = automata.clone();
+            let a1 = automata.clone();
+            Self {
+                size: automata.automata.size(),
+                start: automata.automata.start().verif_index(),
+                transition: Box::new(move |state, byte| {
+                    a0.automata
+                        .transition(DFAState::verif_from_index(state), byte)
+                        .map(|state| state.verif_index())
+                }),
+                info: Box::new(move |state| {
+                    let info = a1.automata.info(DFAState::verif_from_index(state));
+                    (
+                        info.is_accepting,
+                        info.is_terminal,
+                        info.tags.iter().map(|tag| format!("{:?}", tag)).collect(),
+                    )
+                }),
+            }
+        }
+
+        /// Number of states
+        pub fn size(&self) -> usize {
+            self.size
+        }
+
+        /// Start state
+        pub fn start(&self) -> usize {
+            self.start
+        }
+
+        /// Transition function (None is a dead transition)
+        pub fn transition(&self, state: usize, byte: u8) -> Option<usize> {
+            (self.transition)(state, byte)
+        }
+
+        /// `(is_accepting, is_terminal, tag labels in priority order)`
+        pub fn info(&self, state: usize) -> (bool, bool, Vec<String>) {
+            (self.info)(state)
+        }
+    }
+
+    /// Automata used by [TTYEventDecoder]
+    pub fn event_dfa() -> DfaView {
+        DfaView::new(TTY_EVENT_AUTOMATA.clone())
+    }
+
+    /// Automata used by [TTYCommandDecoder]
+    pub fn command_dfa() -> DfaView {
+        DfaView::new(TTY_COMMAND_AUTOMATA.clone())
+    }
+
+    /// Incremental tokeniser (the same code as production decoders use)
+    /// instantiated over caller supplied patterns. Item is the index of the
+    /// pattern (smallest index wins when several patterns accept).
+    pub struct Tokenizer {
+        matcher: MatcherDecoder<usize>,
+    }
+
+    impl Tokenizer {
+        pub fn new<T>(patterns: impl IntoIterator<Item = NFA<T>>) -> Self {
+            let automata = NFA::choice(patterns.into_iter().enumerate().map(|(index, nfa)| {
+                nfa.tags_map(|_| MatcherTag::Item(index))
+                    .tag_stop_state(MatcherTag::Item(index))
+            }))
+            .compile();
+            let inner = MatcherAutomataInner {
+                automata,
+                matchers: Vec::new(),
+            };
+            Self {
+                matcher: MatcherDecoder::new(MatcherAutomata {
+                    inner: Arc::new(inner),
+                }),
+            }
+        }
+
+        /// Decode single token: `Ok(pattern index)` or `Err(rejected bytes)`
+        pub fn decode<B: BufRead>(&mut self, buf: B) -> Result<Option<Result<usize, Vec<u8>>>, Error> {
+            Ok(self
+                .matcher
+                .decode(buf)?
+                .map(|item| item.map_err(|reject| reject.into_vec())))
+        }
+
+        pub fn verif_snapshot(&self) -> Snapshot {
+            snapshot(&self.matcher)
+        }
+
+        /// Numeric view of the compiled automata: `(size, start)`
+        pub fn dfa_start(&self) -> (usize, usize) {
+            (
+                self.matcher.automata.automata.size(),
+                self.matcher.automata.automata.start().verif_index(),
+            )
+        }
+
+        pub fn dfa_transition(&self, state: usize, byte: u8) -> Option<usize> {
+            self.matcher
+                .automata
+                .automata
+                .transition(DFAState::verif_from_index(state), byte)
+                .map(|state| state.verif_index())
+        }
+
+        /// `(is_accepting, is_terminal, pattern indices tagged in this state)`
+        pub fn dfa_info(&self, state: usize) -> (bool, bool, Vec<usize>) {
+            let info = self
+                .matcher
+                .automata
+                .automata
+                .info(DFAState::verif_from_index(state));
+            (
+                info.is_accepting,
+                info.is_terminal,
+                info.tags
+                    .iter()
+                    .filter_map(|tag| match tag {
+                        MatcherTag::Item(index) => Some(*index),
+                        MatcherTag::Matcher(_) => None,
+                    })
+                    .collect(),
+            )
+        }
+    }
+}
+
 #[cfg(test)]
 mod tests {
     use crate::{common::Rnd, encoder::Base64Encoder};
